@@ -71,7 +71,7 @@ Example::
 
 import functools
 import itertools
-import os.path
+import posixpath
 import urllib.parse
 import urllib.request
 import xml.dom
@@ -288,21 +288,39 @@ class Replacer:
 
     def __init__(self, base):
         self.base = self.extract_base(base)
+        parts = urllib.parse.urlsplit(base)
+        self._scheme, self._location = parts.scheme, parts.netloc
+        self._filename = posixpath.split(parts.path)[1]
 
     def __call__(self, uri):
         scheme, location, path, query, fragment = urllib.parse.urlsplit(uri)
-        if scheme or location or path.startswith('/'):
+        if scheme or location:
             # keep anything absolute
             return uri
-
-        path, filename = os.path.split(path)
-        combined = os.path.normpath(os.path.join(self.base, path, filename))
-        return urllib.request.pathname2url(combined)
+        if path.startswith('/'):
+            if not self._location:
+                return uri
+            # root-relative: relative to the host of the import
+            combined = path
+        else:
+            if not path:
+                # '', '#f' or '?q' mean the imported sheet itself
+                path = self._filename
+            combined = posixpath.normpath(posixpath.join(self.base, path))
+            if path.endswith('/') or path.split('/')[-1] in ('.', '..'):
+                combined = combined.rstrip('/') + '/'
+        return urllib.parse.urlunsplit((
+            self._scheme,
+            self._location,
+            combined,
+            query,
+            fragment,
+        ))
 
     @staticmethod
     def extract_base(uri):
         _, _, raw_path, _, _ = urllib.parse.urlsplit(uri)
-        base_path, _ = os.path.split(raw_path)
+        base_path, _ = posixpath.split(raw_path)
         return base_path
 
 
